@@ -236,7 +236,8 @@ func (s *indexKVStore) PrepareFlush() {
 	s.lock.Lock()
 	defer s.lock.Unlock()
 
-	if s.immutable == nil {
+	// an empty frozen store is never reset by Flush (nothing to flush): replace it, otherwise no later PrepareFlush would freeze anything again
+	if s.immutable == nil || s.immutable.IsEmpty() {
 		s.immutable = s.mutable
 		s.mutable = imap.NewIntMap[map[string]uint32]()
 	}
